@@ -200,27 +200,66 @@ type blockStats struct {
 	aborted    bool
 }
 
-func checkBlock(t lib.TB, test, title string, block []txCase) blockStats {
+// unit is one transaction, or a transaction group of 2..5 members executed as a whole.
+type unit []txCase
+
+// unitVerdict: a group succeeds iff every member does (the property is applied to every member separately: each must
+// report every key it wrote itself, also keys that an earlier member of the same group already wrote, and each reported
+// key must be acceptable for that member's executor); otherwise the whole group fails and nothing of it survives.
+type unitVerdict struct {
+	ok      bool
+	members []txVerdict
+	causes  int
+	viaRule bool
+}
+
+func verdictOf(u unit, title string) unitVerdict {
+	uv := unitVerdict{ok: true}
+	for _, c := range u {
+		v := verdict(c, title)
+		uv.members = append(uv.members, v)
+		uv.ok = uv.ok && v.ok
+		uv.causes += v.causes
+		uv.viaRule = uv.viaRule || v.viaRule
+	}
+	return uv
+}
+
+func checkBlock(t lib.TB, test, title string, block []unit) blockStats {
 	n := theNode(title)
 	var st blockStats
 	fail := func(format string, a ...interface{}) { lib.Violation(t, prop, test, block, format, a...) }
 	var txs []*types.Transaction
-	verdicts := make([]txVerdict, len(block))
+	var flat []txCase
+	var head, okOf []bool // per flattened transaction: pays the fee; its unit must succeed
+	verdicts := make([]unitVerdict, len(block))
 	mayAbortExec, mayAbortAdd := false, false
-	for i, c := range block {
-		txs = append(txs, n.Tx(c.Sender, c.Ex, program(c), int64(100+i)))
-		v := verdict(c, title)
-		verdicts[i] = v
-		same := namesOf(title, c.Ex).sameTime
-		// a local key without the prefix makes the executor panic (execenv.go checkPrefix): the request is answered with
-		// an error. That counts as "rejected"; it is only legitimate when such a key was really produced.
-		if v.badLocal && same && v.reachesEL {
-			mayAbortExec = true
+	for ui, u := range block {
+		uv := verdictOf(u, title)
+		verdicts[ui] = uv
+		var utxs []*types.Transaction
+		var senders []int
+		for j, c := range u {
+			utxs = append(utxs, n.Tx(c.Sender, c.Ex, program(c), int64(100+len(flat))))
+			senders = append(senders, c.Sender)
+			flat, head, okOf = append(flat, c), append(head, j == 0), append(okOf, uv.ok)
+			v := uv.members[j]
+			same := namesOf(title, c.Ex).sameTime
+			// a local key without the prefix makes the executor panic (execenv.go checkPrefix): the request is answered
+			// with an error. That counts as "rejected"; it is only legitimate when such a key was really produced
+			// (the generator keeps such keys out of groups).
+			if v.badLocal && same && v.reachesEL {
+				mayAbortExec = true
+			}
+			if v.badLocal && !same && v.ok {
+				mayAbortAdd = true
+			}
 		}
-		if v.badLocal && !same && v.ok {
-			mayAbortAdd = true
+		if len(utxs) > 1 {
+			utxs = n.Group(utxs, senders)
 		}
-		if v.causes == 1 || (v.ok && v.viaRule) {
+		txs = append(txs, utxs...)
+		if uv.causes == 1 || (uv.ok && uv.viaRule) {
 			st.nontrivial = true
 		}
 	}
@@ -234,34 +273,41 @@ func checkBlock(t lib.TB, test, title string, block []txCase) blockStats {
 	} else if err != nil {
 		lib.Inconclusive("node fixture: %v", err)
 	}
-	// receipts: ExecOk exactly for the transactions the predicate admits; a failed one carries only the fee KV
-	for i, c := range block {
-		r, v := res.Receipts[i], verdicts[i]
+	// receipts: ExecOk exactly for the transactions (all members of the groups) the predicate admits; a failed unit
+	// carries only the fee KV, in its first receipt
+	for i, c := range flat {
+		r := res.Receipts[i]
 		if r.Ty != types.ExecOk && r.Ty != types.ExecPack {
 			lib.Inconclusive("node fixture: tx %d got receipt type %d (sender unfunded?)", i, r.Ty)
 		}
-		if got := r.Ty == types.ExecOk; got != v.ok {
-			fail("tx %d (%s): ExecOk=%v, the write-permission rule says %v", i, c.Ex, got, v.ok)
+		if got := r.Ty == types.ExecOk; got != okOf[i] {
+			fail("tx %d (%s): ExecOk=%v, the write-permission rule says %v", i, c.Ex, got, okOf[i])
 		}
-		if len(r.KV) == 0 || string(r.KV[0].Key) != n.AccountKey(n.Addrs[c.Sender]) {
-			fail("tx %d: first receipt KV is not the sender's fee", i)
+		nfee := 0
+		if head[i] {
+			nfee = 1
+			if len(r.KV) == 0 || string(r.KV[0].Key) != n.AccountKey(n.Addrs[c.Sender]) {
+				fail("tx %d: first receipt KV is not the sender's fee", i)
+			}
 		}
-		if !v.ok && len(r.KV) != 1 {
-			fail("tx %d failed but its receipt carries %d KVs besides the fee", i, len(r.KV)-1)
+		if !okOf[i] && len(r.KV) != nfee {
+			fail("tx %d failed but its receipt carries %d KVs besides the fee", i, len(r.KV)-nfee)
 		}
 	}
-	// committed state: a key is present (with the reported value) iff its transaction succeeded and reported it
-	var keys, want []string
-	for i, c := range block {
-		for _, k := range c.Keys {
-			if k.Key == "" {
-				continue
-			}
-			keys = append(keys, k.Key)
-			if verdicts[i].ok && k.Style != "wso" {
-				want = append(want, k.Val)
-			} else {
-				want = append(want, "")
+	// committed state: exactly the reported KVs of the successful units, applied in block order
+	model := map[string]string{}
+	seen := map[string]bool{}
+	var keys []string
+	for ui, u := range block {
+		for _, c := range u {
+			for _, k := range c.Keys {
+				if k.Key != "" && !seen[k.Key] {
+					seen[k.Key] = true
+					keys = append(keys, k.Key)
+				}
+				if verdicts[ui].ok && k.Style != "wso" {
+					model[k.Key] = k.Val
+				}
 			}
 		}
 	}
@@ -271,8 +317,8 @@ func checkBlock(t lib.TB, test, title string, block []txCase) blockStats {
 			lib.Inconclusive("node fixture: reading back state: %v", err)
 		}
 		for i, k := range keys {
-			if string(vals[i]) != want[i] {
-				fail("committed state %q=%q, expected %q", k, vals[i], want[i])
+			if string(vals[i]) != model[k] {
+				fail("committed state %q=%q, expected %q", k, vals[i], model[k])
 			}
 		}
 	}
@@ -288,22 +334,26 @@ func checkBlock(t lib.TB, test, title string, block []txCase) blockStats {
 	for _, kv := range res.Local {
 		got[string(kv.Key)] = string(kv.Value)
 	}
-	for i, c := range block {
-		nm := namesOf(title, c.Ex)
-		for _, k := range c.Local {
-			v, present := got[k.Key]
-			switch {
-			case !localKeyAllowed(k.Key, nm):
-				if present {
-					fail("tx %d (%s): local key %q without the executor's prefix reached the block's local set", i, c.Ex, k.Key)
-				}
-			case verdicts[i].ok && !verdicts[i].badLocal:
-				if !present || v != k.Val {
-					fail("tx %d (%s) succeeded but its local key %q is %q in the block's local set, expected %q", i, c.Ex, k.Key, v, k.Val)
-				}
-			case !verdicts[i].ok:
-				if present {
-					fail("tx %d (%s) failed but its local key %q reached the block's local set", i, c.Ex, k.Key)
+	i := -1
+	for ui, u := range block {
+		for j, c := range u {
+			i++
+			nm := namesOf(title, c.Ex)
+			for _, k := range c.Local {
+				v, present := got[k.Key]
+				switch {
+				case !localKeyAllowed(k.Key, nm):
+					if present {
+						fail("tx %d (%s): local key %q without the executor's prefix reached the block's local set", i, c.Ex, k.Key)
+					}
+				case verdicts[ui].ok && !verdicts[ui].members[j].badLocal:
+					if !present || v != k.Val {
+						fail("tx %d (%s) succeeded but its local key %q is %q in the block's local set, expected %q", i, c.Ex, k.Key, v, k.Val)
+					}
+				case !verdicts[ui].ok:
+					if present {
+						fail("tx %d (%s) failed but its local key %q reached the block's local set", i, c.Ex, k.Key)
+					}
 				}
 			}
 		}
@@ -412,26 +462,81 @@ func genLocalKey(t *rapid.T, nm exNames, uid string) keySpec {
 	return k
 }
 
-func genBlock(t *rapid.T, n *vx.Node, title string) []txCase {
+// rewrite makes c write a key that an earlier transaction wrote (prev = earlier members of the same group, or earlier
+// units for a single transaction): Set without reporting it (most often), or report it.  Whether the rewrite is
+// acceptable is decided by the same predicate as any other key, for c's own executor.
+func rewrite(t *rapid.T, c *txCase, prev []keySpec, class, uid string) {
+	var cands []keySpec
+	for _, k := range prev {
+		if k.Key != "" {
+			cands = append(cands, k)
+		}
+	}
+	if len(cands) == 0 {
+		return
+	}
+	k := rapid.SampledFrom(cands).Draw(t, "rewritten")
+	c.Keys = append(c.Keys, keySpec{Class: class, Key: k.Key, Style: pick(t, "rstyle", "wso", "wso", "ws", "wr"), Val: "r" + uid})
+}
+
+func genTx(t *rapid.T, n *vx.Node, title string, execs []string, txid int, clean, badLocal bool) txCase {
+	c := txCase{Ex: title + rapid.SampledFrom(execs).Draw(t, "ex"), Sender: rapid.IntRange(0, nSenders-1).Draw(t, "sender")}
+	nm := namesOf(title, c.Ex)
+	nkeys := rapid.SampledFrom([]int{0, 1, 1, 1, 1, 1, 1, 2, 2, 3}).Draw(t, "nkeys")
+	for j := 0; j < nkeys; j++ {
+		uid := fmt.Sprintf("%d.%d", txid, j)
+		k := genStateKey(t, n, nm, c.Sender, uid)
+		if ok, _ := stateKeyAllowed(k.Key, nm); clean && (!ok || k.Style == "wso") {
+			k = keySpec{Class: "own", Key: "mavl-" + nm.own + "-c" + uid, Style: pick(t, "style", "ws", "wr"), Val: "v" + uid}
+		}
+		c.Keys = append(c.Keys, k)
+	}
+	for j, nl := 0, rapid.SampledFrom([]int{0, 0, 1, 1, 2}).Draw(t, "nlocal"); j < nl; j++ {
+		k := genLocalKey(t, nm, fmt.Sprintf("%d.%d", txid, j))
+		if !badLocal && !localKeyAllowed(k.Key, nm) {
+			continue
+		}
+		c.Local = append(c.Local, k)
+	}
+	return c
+}
+
+func genBlock(t *rapid.T, n *vx.Node, title string) []unit {
 	execs := []string{vx.ExWrite, vx.ExWrite, vx.ExPlain, vx.ExOwner, "user." + vx.ExWrite + ".a", "user." + vx.ExWrite + ".b1", "user." + vx.ExPlain + ".c"}
-	var block []txCase
-	// bad local keys abort the whole request, so they are confined to a minority of blocks
+	groupExecs := []string{vx.ExWrite, vx.ExWrite, vx.ExOwner, vx.ExPlain, "user." + vx.ExWrite + ".a"}
+	var block []unit
+	var earlier []keySpec // keys of the units before the current one
+	// bad local keys abort the whole request, so they are confined to a minority of blocks (and to single transactions)
 	withBadLocal := rapid.SampledFrom([]bool{false, false, false, false, false, false, true}).Draw(t, "localblock")
-	for i, cnt := 0, rapid.IntRange(1, 8).Draw(t, "ntx"); i < cnt; i++ {
-		c := txCase{Ex: title + rapid.SampledFrom(execs).Draw(t, "ex"), Sender: rapid.IntRange(0, nSenders-1).Draw(t, "sender")}
-		nm := namesOf(title, c.Ex)
-		nkeys := rapid.SampledFrom([]int{0, 1, 1, 1, 1, 1, 1, 2, 2, 3}).Draw(t, "nkeys")
-		for j := 0; j < nkeys; j++ {
-			c.Keys = append(c.Keys, genStateKey(t, n, nm, c.Sender, fmt.Sprintf("%d.%d", i, j)))
-		}
-		for j, nl := 0, rapid.SampledFrom([]int{0, 0, 1, 1, 2}).Draw(t, "nlocal"); j < nl; j++ {
-			k := genLocalKey(t, nm, fmt.Sprintf("%d.%d", i, j))
-			if !withBadLocal && !localKeyAllowed(k.Key, nm) {
-				continue
+	txid := 0
+	for i, cnt := 0, rapid.IntRange(1, 5).Draw(t, "nunits"); i < cnt && txid < 10; i++ {
+		size := rapid.SampledFrom([]int{1, 1, 1, 1, 2, 2, 3, 3, 4, 5}).Draw(t, "size")
+		var u unit
+		if size == 1 {
+			c := genTx(t, n, title, execs, txid, false, withBadLocal)
+			if rapid.IntRange(0, 5).Draw(t, "rewriteprev") == 0 {
+				rewrite(t, &c, earlier, "rewrite-prev", fmt.Sprint(txid))
 			}
-			c.Local = append(c.Local, k)
+			u = unit{c}
+			txid++
+		} else {
+			// in a "clean" group every ordinary key is acceptable, so that a rewrite is the only possible cause of failure
+			clean := rapid.SampledFrom([]bool{true, true, false}).Draw(t, "clean")
+			var inGroup []keySpec
+			for j := 0; j < size; j++ {
+				c := genTx(t, n, title, groupExecs, txid, clean, false)
+				if j > 0 && rapid.IntRange(0, 2).Draw(t, "rewrite") > 0 {
+					rewrite(t, &c, inGroup, "rewrite", fmt.Sprint(txid))
+				}
+				inGroup = append(inGroup, c.Keys...)
+				u = append(u, c)
+				txid++
+			}
 		}
-		block = append(block, c)
+		for _, c := range u {
+			earlier = append(earlier, c.Keys...)
+		}
+		block = append(block, u)
 	}
 	return block
 }
@@ -446,23 +551,56 @@ func runProp(t *testing.T, test, title string) {
 		block := genBlock(t, n, title)
 		lib.Eval()
 		st := checkBlock(t, test, title, block)
-		for _, c := range block {
-			v := verdict(c, title)
-			for _, k := range c.Keys {
-				lib.Class("key:" + k.Class)
+		for _, u := range block {
+			uv := verdictOf(u, title)
+			kind := "tx"
+			if len(u) > 1 {
+				kind = "group"
 			}
-			for _, k := range c.Local {
-				lib.Class("local:" + k.Class)
+			rewriteOmitted, otherCauses := 0, uv.causes
+			for _, c := range u {
+				nm := namesOf(title, c.Ex)
+				reported := map[string]bool{}
+				for _, k := range c.Keys {
+					if k.Style != "wso" {
+						reported[k.Key] = true
+					}
+				}
+				for _, k := range c.Keys {
+					label := "key:" + k.Class
+					if strings.HasPrefix(k.Class, "rewrite") {
+						ok, _ := stateKeyAllowed(k.Key, nm)
+						switch {
+						case k.Style == "wso" && !reported[k.Key]:
+							label += "-omitted"
+							if k.Class == "rewrite" {
+								rewriteOmitted++
+							}
+						case ok:
+							label += "-reported-allowed"
+						default:
+							label += "-reported-rejected"
+						}
+					}
+					lib.Class(label)
+				}
+				for _, k := range c.Local {
+					lib.Class("local:" + k.Class)
+				}
 			}
+			otherCauses -= rewriteOmitted
 			switch {
-			case v.ok && v.viaRule:
-				lib.Class("tx:ok-via-deposit-or-friend")
-			case v.ok:
-				lib.Class("tx:ok")
-			case v.causes == 1:
-				lib.Class("tx:rejected-single-cause")
+			case uv.ok && uv.viaRule:
+				lib.Class(kind + ":ok-via-deposit-or-friend")
+			case uv.ok:
+				lib.Class(kind + ":ok")
+			case rewriteOmitted > 0 && otherCauses == 0:
+				// the only reason is a member that Set, without reporting, a key first written by an earlier member
+				lib.Class(kind + ":rejected-only-by-unreported-rewrite")
+			case uv.causes == 1:
+				lib.Class(kind + ":rejected-single-cause")
 			default:
-				lib.Class("tx:rejected-multi-cause")
+				lib.Class(kind + ":rejected-multi-cause")
 			}
 		}
 		if st.aborted {
